@@ -557,6 +557,8 @@ def _impl_git(inp):
 
 def impl_obs(inp, obs):
     """File-system conflicts (transform.resolve_conflicts) are not modelled: project them to one tag."""
+    if obs == Err("MalformedTransform"):
+        return Tag("fs-conflict")             # resolve_conflicts gave up: still "file-system conflicts arose"
     if isinstance(obs, (Err, Tag)):
         return obs
     if any(str(c[1]) in FS_TYPES for c in obs[1]):
